@@ -515,6 +515,11 @@ func (g *c01Gen) obj(depth int, spine bool) *Doc {
 			g.nonIdent = true
 		} else {
 			k = r.Pick(c01Keys)
+			if r.Intn(4) == 0 {
+				// the same logical key spelled differently from object to object (elements of one array are not
+				// siblings: `id`, `ID` and `Id` in three elements all answer `$.items.id`)
+				k = c01RandCase(r, k)
+			}
 		}
 		if has(k) {
 			continue
